@@ -135,6 +135,10 @@ type Sim struct {
 
 	race *raceState
 
+	// InvViol: violations of machine-level invariants noticed by the
+	// simulator itself (e.g. two running commands sharing a temp directory)
+	InvViol []string
+
 	// Aux holds per-simulation state of shim packages (global PRNG, ...).
 	Aux map[string]any
 }
